@@ -697,12 +697,10 @@ func (c *Compiler) ExpandModules() (err error) {
 
 	// Check every must, when and leafref path expression, including those
 	// in groupings and typedefs that nothing uses
-	if !c.skipUnknown {
-		for _, module := range c.modules {
-			c.validateXpathWalk(module.GetModule())
-			for _, sm := range module.GetSubmodules() {
-				c.validateXpathWalk(sm)
-			}
+	for _, module := range c.modules {
+		c.validateXpathWalk(module.GetModule())
+		for _, sm := range module.GetSubmodules() {
+			c.validateXpathWalk(sm)
 		}
 	}
 
